@@ -138,12 +138,15 @@ SITES = [
     ("saveDepthGuard", "lib/lpc/object.c", r"if \(\+\+save_svalue_depth > MAX_SAVE_SVALUE_DEPTH\)" + W + r"\{" + W + r"too_deep_save_error \(\);", 3, None),
     ("saveDepthLeave", "lib/lpc/object.c", r"save_svalue_depth--;" + W + r"return size \+ (\d+);", 3, "saveBoxOverhead"),
     ("copyDepthGuard", "lib/efuns/unsorted.c", r"depth\+\+;" + W + r"if \(depth > MAX_SAVE_SVALUE_DEPTH\)" + W + r"\{" + W + r"depth = 0;" + W + r"error", 2, None),
+    ("restoreDepthGuard", "lib/lpc/object.c", r"static int restore_internal_size \(char \*\*str, int is_mapping, int depth, int nesting\) \{.{0,200}?if \(nesting > MAX_SAVE_SVALUE_DEPTH\)" + W + r"return 0;", 1, None),
+    ("restoreDepthDescends", "lib/lpc/object.c", r"restore_internal_size \(str, [01], save_svalue_depth\+\+, nesting \+ 1\)", 3, None),
+    ("restoreDepthTop", "lib/lpc/object.c", r"restore_internal_size \(str, [01], save_svalue_depth\+\+, (\d+)\)", 3, "restoreTopNesting"),
     ("regexpAlloc", "lib/lpc/array.c", r"flag &= 1;" + W + r"ret = allocate_empty_array \(num_match << flag\);", 1, None),
     ("regAssocAlloc", "lib/lpc/array.c", r"allocate_empty_array \(2 \* num_match \+ 1\)", 2, None),
     ("restoreArrayAlloc", "lib/lpc/object.c", r"size = restore_size \(str, 0\)\) < 0\)" + W + r"return ROB_ARRAY_ERROR;" + W + r"v = allocate_array \(size\);", 1, None),
     ("restoreMappingGuard", "lib/lpc/object.c", r"if \(\+\+count > CONFIG_INT \(__MAX_MAPPING_SIZE__\)\)" + W + r"\{.{0,400}?mapping_too_large \(\);", 1, None),
-    ("handlerNestedKeepsState", "src/error_context.c", r"in_mudlib_error_handler = 0;" + W + r"set_error_state \(handler_limit_state\);", 2, None),
-    ("handlerSavesState", "src/error_context.c", r"handler_limit_state = limit_state;" + W + r"in_mudlib_error_handler = 1;", 2, None),
+    ("handlerNestedKeepsState", "src/error_context.c", r"if \(current_error_context == mudlib_error_handler_context\)" + W + r"\{" + W + r"in_mudlib_error_handler = 0;" + W + r"set_error_state \(handler_limit_state\);" + W + r"\}", 2, None),
+    ("handlerSavesState", "src/error_context.c", r"handler_limit_state = limit_state;" + W + r"in_mudlib_error_handler = 1;" + W + r"mudlib_error_handler_context = current_error_context;", 2, None),
     ("setLimitCast", "lib/efuns/unsorted.c", r"default:" + W + r"CONFIG_INT \(__MAX_EVAL_COST__\) = \(int\)sp->u.number;" + W + r"if \(CONFIG_INT \(__MAX_EVAL_COST__\) < 1\)", 1, None),
     ("aggregateAlloc", "src/interpret.c", r"unsigned short offset;.{0,60000}?case F_AGGREGATE:" + W + r"\{" + W + r"array_t \*v;" + W + r"LOAD_SHORT \(offset, pc\);" + W + r"offset \+= \(unsigned short\)num_varargs;" + W + r"num_varargs = 0;" + W + r"v = allocate_empty_array \(\(int\) offset\);", 1, None),
     ("callbackTickBlock", "src/interpret.c", r"svalue_t\* call_efun_callback \(function_to_call_t \* ftc, int n\) \{" + W + r"svalue_t \*v;" + W + r"(?:/\*.*?\*/)?" + W + r"if \(!--eval_cost\)" + W + r"\{" + W + r"set_error_state \(ES_MAX_EVAL_COST\);" + W + r"eval_cost = CONFIG_INT \(__MAX_EVAL_COST__\);" + W + r"error", 1, None),
@@ -542,7 +545,7 @@ class C04(Prop):
                 "NV.C04.array_size_exact", "NV.C04.sizes_bounded_derived", "NV.C04.map_count_exact",
                 "NV.C04.bridge_stackSlack", "NV.C04.bridge_depthTest", "NV.C04.bridge_clamp", "NV.C04.bridge_safeTick",
                 "NV.C04.bridge_esBits", "NV.C04.bridge_widths",
-                "NV.C04.sizes_bounded_round4", "NV.C04.compose_count_exact", "NV.C04.save_depth_bounded",
+                "NV.C04.sizes_bounded_round4", "NV.C04.compose_count_exact", "NV.C04.save_depth_bounded", "NV.C04.restore_depth_bounded",
                 "NV.C04.loop_iterations_charged", "NV.C04.bridge_backwardOps", "NV.C04.bridge_saveWalk", "NV.C04.bridge_casts"]
     witness_theorems = ["NV.C04.eval_unbounded_at_zero_budget", "NV.C04.eval_bound_attained_through_safe_apply",
                         "NV.C04.sprintf_exceeds_small_limit", "NV.C04.array_size_wraps",
@@ -593,7 +596,7 @@ class C04(Prop):
             "trace has >= 2 lines; distinct = distinct canonical implementation trace")
     not_covered = ["work done inside one efun call that makes no callback (hashing, copying, `%*s` padding, unique_array's group search) is bounded by the size limits, not by the evaluation cost",
                    "instructions the master's error handler executes after a limit error (it runs on a refreshed budget; bounded by an allowance in the oracle, not modelled); in_error nesting beyond the two repaired paths",
-                   "C recursion depth of walks that have no limit of their own: sprintf(\"%O\") through nested function-pointer arguments, free_svalue / restore_variable on values nested tens of thousands deep (observations in notes/C04.md: stack overflow of the driver reachable with the default budget; C01 material)",
+                   "C recursion depth of walks that have no limit of their own: sprintf(\"%O\") through nested function-pointer arguments, free_svalue on values nested tens of thousands deep (observations in notes/C04.md: stack overflow of the driver reachable with the default budget; C01 material)",
                    "wall-clock time and memory of a single efun call",
                    "unchecked value-stack pushes by the interpreter itself (F_PUSH, argument pushes, merge_arg_lists): confirmed defect that belongs to C01; the slots above StackSize are watched for the generated programs only",
                    "efuns excluded from the size decisions: see EFUN_EXCLUDED in props/c04.py (each with its reason; the check fails when an efun returning a sized value is in neither table); classes rebuilt by restore_variable are not limited by MaxArraySize",
@@ -790,6 +793,10 @@ class C04(Prop):
         B.append(self.mk("b-hf-safe-spin-loop", Bk(4, A(S)), cost=2000, hc=2))
         B.append(self.mk("b-hf-safe-catch-spin", Q(A(C(S)), W(10)), cost=2000, hc=2))
         B.append(self.mk("b-hf-c-err", Q(C(E_), Q(A(E_), W(20))), hc=2))
+        for mode in (4, 5):
+            B.append(self.mk("b-hf%d-c2-spin" % mode, Q(C(C(S)), W(50)), hc=mode))
+            B.append(self.mk("b-hf%d-c-rec-err" % mode, Q(C(R(0)), Q(C(E_), W(5))), hc=mode))
+            B.append(self.mk("b-hf%d-safe-spin-loop" % mode, Bk(3, A(S)), cost=2000, hc=mode))
         B.append(self.mk("b-hf3-c2-spin", Q(C(C(S)), W(50)), hc=3))
         B.append(self.mk("b-hf3-safe-spin", Q(A(S), W(10)), cost=2000, hc=3))
         B.append(self.mk("b-cb-c-spin", Bk(3, C(C(S)))))
@@ -933,7 +940,8 @@ class C04(Prop):
                 continue
             if root.has(("A",)) and st["inf"] is False and rng.chance(1, 2):
                 continue
-            hc = rng.choice([1, 1, 2, 3]) if rng.chance(1, 4) else 0   # 2: the handler completes a catch and then fails itself; 3: fails at once
+            # 2: the handler completes a catch and then fails itself; 3: fails at once; 4 / 5: an error inside its own catch, then returns / fails
+            hc = rng.choice([1, 1, 2, 3, 4, 5]) if rng.chance(1, 4) else 0
             via = rng.weighted([("cfgint", 6), ("reconf", 2), ("setlimit", 1)])
             if rng.chance(1, 12):       # a budget that the driver clamps to 1
                 cost = rng.choice([0, -1, -3000]) if via != "setlimit" else rng.choice([-2, -3000, 4294967296])
@@ -980,7 +988,7 @@ class C04(Prop):
                 elif d in ("save_nested", "copy_nested"):
                     cmds.append("%s %d" % (d, rng.choice([1, 2, 10, 24, 25, 26, 27, 40])))
                 elif d == "restore_nested":
-                    cmds.append("restore_nested %d" % rng.choice([1, 2, 10, 26, 40, max(1, (ls - 4) // 5), max(1, (ls - 4) // 5 + 2)]))
+                    cmds.append("restore_nested %d" % rng.choice([1, 2, 10, 24, 25, 26, 27, 40, max(1, (ls - 4) // 5), max(1, (ls - 4) // 5 + 2)]))
                 elif d == "restore_array":
                     cmds.append("restore_array %d" % max(0, rng.choice([0, 1, la, la + 1, (ls - 4) // 2, (ls - 4) // 2 + 1])))
                 elif d == "restore_mapping":
